@@ -50,6 +50,20 @@ def install(R, models):
         return sparse_of(NdArr.from_fn("decision_path", (X.shape[0], nn), "int", lambda r, j: pathF(st, models.row_of(E, fs, r), j)))
     R.methods[("estimator", "decision_path")] = m_decision_path
 
+    def _dtr_decision_path(E, self_obj, X, check_input=True):
+        """DecisionTreeRegressor.decision_path on an in-repo subclass instance: the fitted tree is the ghost state of tree_"""
+        tree = self_obj.fields.get("tree_")
+        if not (isinstance(X, NdArr) and X.ndim == 2 and isinstance(tree, Opaque)):
+            raise Unsupported("decision_path of %r" % (self_obj,))
+        st = tree.term
+        fs = X.snapshot()
+        nn = nodesF(st)
+        E.assume(nn >= 1)
+        E.trace.append(dict(op="decision_path", obj=self_obj, X=X, state=st))
+        return sparse_of(NdArr.from_fn("decision_path", (X.shape[0], nn), "int", lambda r, j: pathF(st, models.row_of(E, fs, r), j)))
+    R.fns["sklearn.tree.DecisionTreeRegressor.decision_path"] = _dtr_decision_path
+    R.ext_methods.setdefault("sklearn.tree.DecisionTreeRegressor", {})["decision_path"] = "sklearn.tree.DecisionTreeRegressor.decision_path"
+
     old_transform = R.methods[("estimator", "transform")]
 
     def m_transform(E, recv, args, kwargs, node):
@@ -78,11 +92,39 @@ def install(R, models):
     def getitem_hook(E, base, idx, node):
         if is_sparse(base):
             d = base.fields["dense"]
-            if isinstance(idx, tuple) and len(idx) == 2 and idx[0] == slice(None, None, None) and not isinstance(idx[1], (slice, NdArr, list, tuple)):
+            from .engine import SymSeq as _SymSeq
+            if isinstance(idx, tuple) and len(idx) == 2 and idx[0] == slice(None, None, None) and not isinstance(idx[1], (slice, NdArr, list, tuple, _SymSeq)) and type(idx[1]).__name__ != 'SList':
                 from .pymodel import norm_index
                 j = norm_index(E, idx[1], d.shape[1], node)
                 fs = d.snapshot()
                 return sparse_of(NdArr.from_fn("col", (d.shape[0], 1), d.kind, lambda r, c: fs.get(r, j)))
+            from .engine import SymSeq
+            from .values import SList as _SList
+            if isinstance(idx, tuple) and len(idx) == 2 and idx[0] == slice(None, None, None) and isinstance(idx[1], _SList):
+                cols = idx[1]
+                fs = d.snapshot()
+                t0 = z3.Int(fresh_name("ct"))
+                E.safety("column-list-in-range", z3.ForAll([t0], z3.Implies(z3.And(t0 >= 0, t0 < z(cols.length)),
+                         z3.And(cols.get(t0) >= 0, cols.get(t0) < z(d.shape[1])))), node, "IndexError")
+                return sparse_of(NdArr.from_fn("cols", (d.shape[0], cols.length), d.kind, lambda r, t: fs.get(r, cols.get(t))))
+            if isinstance(idx, tuple) and len(idx) == 2 and idx[0] == slice(None, None, None) and isinstance(idx[1], (SymSeq, list)):
+                # m[:, columns] : the listed columns, in that order
+                cols = idx[1]
+                fs = d.snapshot()
+                if isinstance(cols, list):
+                    from .pymodel import norm_index
+                    cs = [norm_index(E, c, d.shape[1], node) for c in cols]
+
+                    def pick(r, t):
+                        v = fs.get(r, cs[-1]) if cs else z3.IntVal(0)
+                        for q in range(len(cs) - 2, -1, -1):
+                            v = z3.If(t == q, fs.get(r, cs[q]), v)
+                        return v
+                    return sparse_of(NdArr.from_fn("cols", (d.shape[0], len(cs)), d.kind, pick))
+                t0 = z3.Int(fresh_name("ct"))
+                E.safety("column-list-in-range", z3.ForAll([t0], z3.Implies(z3.And(t0 >= 0, t0 < z(cols.length)),
+                         z3.And(z(cols.item(t0)) >= 0, z(cols.item(t0)) < z(d.shape[1])))), node, "IndexError")
+                return sparse_of(NdArr.from_fn("cols", (d.shape[0], cols.length), d.kind, lambda r, t: fs.get(r, z(cols.item(t)))))
             raise Unsupported("sparse[%r]" % (idx,))
         return prev_get(E, base, idx, node) if prev_get is not None else NotImplemented
     R.getitem_hook = getitem_hook
@@ -119,3 +161,22 @@ def install(R, models):
             return tuple_key(v)
         return old_tuple(E, v)
     R.fns["builtin.tuple"] = _tuple
+
+
+def install_argmax(R):
+    def _argmax(E, a, axis=None, **kw):
+        """numpy.argmax(m, 1): per row the FIRST position of a largest entry; for a sparse / matrix argument the result is (rows, 1)"""
+        d = a.fields["dense"] if is_sparse(a) else a
+        if not (isinstance(d, NdArr) and d.ndim == 2 and axis in (1, -1)):
+            raise Unsupported("argmax(%r, axis=%r)" % (a, axis))
+        E.safety("argmax-of-empty", z(d.shape[1]) >= 1, None, "ValueError")
+        n, L = z(d.shape[0]), z(d.shape[1])
+        out = NdArr.fresh("argmax", (d.shape[0], 1) if is_sparse(a) else (d.shape[0],), "int")
+        at = (lambda r: out.get(r, 0)) if is_sparse(a) else (lambda r: out.get(r))
+        fs = d.snapshot()
+        r, c = z3.Int(fresh_name("ar")), z3.Int(fresh_name("ac"))
+        E.assume(z3.ForAll([r], z3.Implies(z3.And(r >= 0, r < n), z3.And(at(r) >= 0, at(r) < L)), patterns=[at(r)]))
+        E.assume(z3.ForAll([r, c], z3.Implies(z3.And(r >= 0, r < n, c >= 0, c < L), z3.And(
+            fs.get(r, c) <= fs.get(r, at(r)), z3.Implies(c < at(r), fs.get(r, c) < fs.get(r, at(r)))))))
+        return out
+    R.fns["numpy.argmax"] = _argmax
